@@ -244,7 +244,7 @@ def checkCast (classes : List ClassInfo) (e : Entry) : Bool :=
   (match e.ufm with
    | none => false
    | some u =>
-     if classIsDirection classes e.cls && e.kind == .castCtor then true
+     if classIsDirection classes e.cls then true
      else match e.numOuts, e.argSizes with
        | some outs, [n] =>
          e.kind == .castCtor && outs.length == n && allIdx outs (fun i ex => isCastOfVar e.fm u i ex)
@@ -289,12 +289,19 @@ def readsUninit : DTree → Bool
   | unexplored => false
 end DTree
 
-/-- The converting constructor of a direction class is: cast every component, then normalise —
-i.e. exactly the normalising constructor's decision tree with `cast fm (var i u)` for input `i`. -/
+/-- Where a converting member reads its source components: the converting assignment's inputs are the
+target's previous components followed by the source's. -/
+def Entry.castOffset (e : Entry) : Nat :=
+  if e.kind == .castAssign then (match e.argSizes with | n :: _ => n | [] => 0) else 0
+
+/-- The converting constructor and the converting assignment of a direction class are: cast every
+component, then normalise — i.e. exactly the normalising constructor's decision tree with
+`cast fm (var (off + i) u)` for input `i` (`off = 0` for the constructor; for the assignment the
+source components follow the target's previous ones, which do not occur). -/
 def checkDirCast (castE normE : Entry) : Bool :=
   castE.fm == normE.fm &&
   (match castE.ufm with
-   | some u => DTree.beq castE.tree (normE.tree.subst fun i => .cast castE.fm (.var i u))
+   | some u => DTree.beq castE.tree (normE.tree.subst fun i => .cast castE.fm (.var (castE.castOffset + i) u))
    | none => false)
 
 def isPosZero : Expr → Bool
